@@ -210,7 +210,8 @@ _c("C07",
    "and the model is proved to perform exactly those (C07_model_follows_source_sites). Aggregated dicts, documents and "
    "deserializations are compared with typedpy inside Coq on all mapper assignments of depth <= 3 (random stream), on an enumerated "
    "lattice of sibling-name renames x field kinds x mapper placements, and on a falsy-value lattice; Serializer/Deserializer and "
-   "serialize()/deserialize_structure() entry points; with and without an earlier use of the class under another mapper.",
+   "serialize()/deserialize_structure() entry points; with and without an earlier use of the class under another mapper; and a hetero-history stream: positional Array/Tuple and Array/Set-of-AnyOf items over 2-3 structure classes with shared field names renamed differently, under cache "
+   "histories (container first / item classes first / interleaved, schema export as filler) with the key-set and round-trip clauses judged per class after every prefix.",
    "Trusted: Coq kernel + vm_compute; Ser/Mappers.v hand-written (single inheritance, scalar values are opaque tokens copied "
    "unchanged, no field types); site recogniser harness/genmods/mapper_sites.py (fails closed); harness generators; CPython. The "
    "round trip of NESTED classes composed with deser_struct is not proved (false two levels down on the pinned code, C07-F1): it is "
